@@ -167,7 +167,7 @@ for _p, _src in (("C02", "C13"), ("C03", "C13"), ("C04", "C15")):
 # "a pinned participant sees at most one advance" (C14) needs that its epoch is never re-published while a guard lives:
 # who may call repin_without_collect, the repin sequence, and the outermost-only clearing
 for _p, _rules in (("C11", ["CAS-EPOCH-BLIND"]), ("C20", ["EBR-REACTIVATE", "REC-NO-UNBOUNDED", "REC-COLLECT-REENTRY"]),
-                   ("C18", ["REC-NO-UNBOUNDED"]), ("C19", ["BIT-TAGGED"]),
+                   ("C18", ["REC-NO-UNBOUNDED", "EBR-DEFAULT-COLLECTOR"]), ("C19", ["BIT-TAGGED"]),
                    ("C01", ["CW-COUNT-OVERFLOW"]), ("C03", ["CW-COUNT-OVERFLOW"]),
                    ("C02", ["CW-UPGRADE-TRACE", "OWN-PRIMITIVES", "LINK-TAG", "CW-WINDOW-FRESH", "CW-CASCADE-FOREIGN-GUARD"]), ("C05", ["CW-UPGRADE-TRACE", "CW-COUNT-OVERFLOW"]),
                    ("C12", ["OWN-PRIMITIVES", "LINK-TAG", "CW-WINDOW-FRESH"]),
